@@ -10,18 +10,60 @@ CFG = dict(
          "insertions, plus small-biased random strings; a case is non-trivial when the input is non-empty (for "
          "headers: at least the minimum header length, for ReplicateTx: longer than the length prefix); distinct by "
          "(entry point, input bytes, outcome). Also modelled: appendable.NewMetadata + Get/GetInt/GetBool on valid, "
-         "mutated and hand-made metadata blocks. Probes without a model (falsifier only: panic, no return within 60 s, "
-         "allocation far beyond the file size): the pgsql Parse*Msg functions on structured payloads (strings with and "
-         "without terminator, negative / huge counts and lengths, truncations), sql.ParseSQLString on mutated SQL, "
-         "singleapp.Open on files with corrupted headers",
+         "mutated and hand-made metadata blocks. "
+         "PostgreSQL wire (modelled, share n/7): Bind / Parse / Execute messages built field by field, every int16 / "
+         "int32 field set to boundary values (0, +-1, 32767, -32768, 2^31-1, what remains behind the field +-1, "
+         "MaxMsgSize +-1: a handful of 32 MiB lengths per run), truncation behind every field, string terminators "
+         "removed, every type byte on short payloads, random payloads; framing: length field 0..5, payload length "
+         "+-1, MaxMsgSize+4 +-1, 2^31+3 +-1, unknown type bytes, every truncation of two frames; outcome, decoded "
+         "message and bytes allocated (runtime.MemStats) are compared; non-trivial = non-empty input. "
+         "pkg/stream (modelled, share n/7): sequences of length-prefixed messages for the Read / key-value / sorted-set "
+         "/ verifiable-entry / exec-all receivers cut into chunks four ways (one chunk, single bytes, message "
+         "boundaries, random pieces incl. empty chunks), one length field altered (+-1, 0, 2^63-1, 2^63, 2^64-1, ..), "
+         "truncated, trailing garbage, transport error instead of EOF, buffer sizes 1..33; the handler loop is run 12 "
+         "steps and the items, panic flag and allocation compared; ReadFully: first chunk of 0..9 bytes, announced "
+         "length around the delivered length, 2^48+1, 2^63+1; non-trivial = more than 8 bytes of chunks. "
+         "Open-time parsing (modelled, share n/10): tbtree commit-log entries with every size field at boundary values "
+         "(top bit set, +-1 around the log size), commit-log metadata blocks with each parameter at boundary values "
+         "and byte mutations, hand-serialised inner / leaf nodes with every count / size field at boundary values, "
+         "truncations, type byte, random logs, timestamp files of 0..10 bytes; ahtree: last commit-log entry offset / "
+         "size at boundary values against payload / digest log sizes, DataAt entry sizes. "
+         "Probes without a model (falsifier only: panic, no return within 60 s, allocation far beyond the input): "
+         "sql.ParseSQLString on mutated SQL, singleapp.Open on files with corrupted headers, the pgsql Parse*Msg "
+         "functions (kept from the first version), multiapp / singleapp header values (FILE_SIZE, COMPRESSION_FORMAT)",
     trusted_base=COMMON_TB + [
         "modelled (theorems): TxMetadata.ReadFrom, KVMetadata.unsafeReadFrom, TxHeader.ReadFrom, ReplicateTx framing "
-        "(embedded/store), appendable Metadata.ReadFrom and its typed getters; NOT modelled, probed by the falsifier "
-        "only: goyacc SQL parser, pgsql wire message parsers, singleapp.Open header handling; not covered at all: "
-        "pkg/stream chunk parsers, protobuf unmarshalling, gRPC framing",
+        "(embedded/store), appendable Metadata.ReadFrom and its typed getters; pgsql: session.parseRawMessage with all "
+        "fmessages parsers and messageReader.ReadRawMessage over a transliteration of bufio.Reader (fill, ReadSlice, "
+        "collectFragments, ReadBytes, Read, Buffered; Go 1.25 source) reading from a bytes.Buffer; pkg/stream: "
+        "msgReceiver.Read / ReadFully, ReadValue, kv / z / verifiable-entry / exec-all receivers over a list of "
+        "chunks; tbtree: cLogEntry.deserialize / isValid, the io.SectionReader arithmetic of appendable.Checksum, "
+        "parameters from the commit-log metadata, readNodeFrom over appendable.Reader, readTsFile; ahtree: OpenWith "
+        "size arithmetic (nodesUpto included), DataAt buffer size. NOT modelled, probed by the falsifier only: goyacc "
+        "SQL parser, singleapp.Open / multiapp.Open header handling; not covered: protobuf unmarshalling (ZAdd / "
+        "verifiable-entry bodies are opaque), gRPC framing, tbtree operations on loaded nodes (history chains, "
+        "splits), the I/O of the open loops (which commit-log entry is read, checksum values)",
         "Go slices handed to the decoders have cap == len (harness clamps them), as the model's sub_ assumes",
+        "allocation measure: the model counts the bytes requested by make(), by bufio.ReadBytes, by string([]byte) "
+        "conversions and per appended element; Go's size classes, amortised append growth and small bookkeeping "
+        "objects are covered by the factor 4 (+4 KiB) with which runtime.MemStats.TotalAlloc of the real call is "
+        "compared; runtime.makeslice is modelled as: panic for a negative length or more than 2^48 bytes, otherwise "
+        "the request (the out-of-memory crash of the runtime for requests the machine cannot serve is not a value "
+        "of the model: such inputs appear as an allocation measure only)",
+        "bytes.Buffer.Read, io.ReadFull, binary.Read (8-byte numbers), io.SectionReader.Read / NewSectionReader and "
+        "appendable.Reader.Read are transliterated from their Go 1.25 / repository source for the cases that occur "
+        "(whole payload buffered at the first fill; ReadAt returning data or io.EOF); net.Conn / gRPC Recv are "
+        "abstracted to 'the bytes, then EOF (or a transport error)'",
+        "add-only hooks (build tag verif): pkg/pgsql/server/verif_hooks_c16.go (raw message fields, parseRawMessage), "
+        "embedded/tbtree/verif_hooks_c16.go (cLogEntry, readNodeAt, parameters, readTsFile), "
+        "embedded/ahtree/verif_hooks_c16.go (pLogSize / dLogSize)",
+        "switches in coq/Tie/C16.v select which code the tie runs against: pg_bind_is_fixed, stream_is_fixed, "
+        "tbtree_open_is_fixed, ahtree_open_is_fixed (false = code as found; the theorems cover both values)",
     ],
-    assumptions=["each Go slice expression is transliterated by hand into a checked primitive (at_/from_/sub_/uint_)"],
+    assumptions=["each Go slice expression is transliterated by hand into a checked primitive (at_/from_/sub_/uint_)",
+                 "a read buffer / chunk buffer is at most 2^48 bytes long (premise of the stream theorems: Go cannot "
+                 "make a larger slice)",
+                 "the node parser theorem is stated for byte strings (every element below 256)"],
 )
 
 
